@@ -3,6 +3,8 @@
 case sx:   (c09 "<text bytes, \\xNN-escaped>")      — the judge recomputes the line table from the text itself
 impl:      {src: text}                               — mvh mode `parse` (harness/src/mode_parse.rs)
 """
+import os as _os
+_REPO_ROOT = _os.environ.get("MECH_REPO", "/repo")   # testing aid (seeded runs); registered commands never set it
 import os, re, random
 from vlib.core import q
 
@@ -37,7 +39,7 @@ ASSUMPTIONS = [
     "harness's grapheme counts by the code-point counts for other lines (grapheme segmentation itself is not re-implemented in Coq)",
 ]
 
-REPO = "/repo"
+REPO = (_REPO_ROOT + "")
 
 # --------------------------------------------------------------------------- alphabet
 OPS = ["+", "-", "*", "/", "^", "**", "==", "!=", "<", ">", "<=", ">=", "&&", "||", "^^", "!", "=", ":=", "+=", "-=", "*=", "/=", "^=",
